@@ -18,7 +18,7 @@ Join(d, r) == d \o r
 (*                  atNone: comps after load without audio dir, count: number of distinct paths this     *)
 (*                  recording has among all places it is reachable from in the loaded object] >> ]       *)
 PathClauses == {"StoredIsRelative", "Relocates", "RelocatesEverywhere", "PassThroughWithoutDir",
-                "OutsideRaises", "NothingWrittenOnError"}
+                "OutsideRaises", "NothingWrittenOnError", "SecondSaveIndependent"}
 WithDir(o) == o.in.audio # "none"
 HoldsC18(cl, o) ==
   LET x == o.out IN
@@ -37,4 +37,9 @@ HoldsC18(cl, o) ==
                         /\ \A j \in DOMAIN x.recs : x.recs[j].stored = x.recs[j].orig /\ x.recs[j].atNone = x.recs[j].orig
     [] cl = "OutsideRaises" -> (WithDir(o) /\ o.in.place # "inside") => x.saved # ""
     [] cl = "NothingWrittenOnError" -> x.saved # "" => ~x.file_exists
+    \* a save depends only on its own arguments: the same collection saved again in the same process under directory A2
+    \* (out.saved2 = "skipped" when no second save was made) stores every path relative to A2
+    [] cl = "SecondSaveIndependent" ->
+         x.saved2 # "skipped" => /\ x.saved2 = ""
+                                 /\ \A j \in DOMAIN x.recs : IsPrefixOf(x.A2, x.recs[j].orig) /\ x.recs[j].stored2 = RelativeTo(x.recs[j].orig, x.A2)
 =============================================================================
